@@ -709,6 +709,11 @@ func isCommonWord(word string) bool {
 
 // SearchWithNLP performs natural language search with advanced query processing
 func (db *Database) SearchWithNLP(query string, options SearchOptions) []SearchResult {
+	if options.Limit <= 0 {
+		// like the other entry points; a negative limit would be used as a slice bound below
+		options.Limit = constants.DefaultSearchLimit
+	}
+
 	if !options.UseNLP {
 		// Fall back to regular search if NLP is disabled
 		return db.SearchWithFuzzy(query, options)
